@@ -14,7 +14,7 @@ from collections import Counter, defaultdict
 from sim import core
 from sim.jitsim import parent as P
 
-STRETCH_CLASSES = ["open:lock", "rename:tmp", "codegen:", "spawn-compile-end:obj", "spawn-link:so",
+STRETCH_CLASSES = ["open:lock", "stat:lock", "stat:failed", "rename:tmp", "codegen:", "spawn-compile-end:obj", "spawn-link:so",
                    "spawn-link-end:so", "open:marker", "write:marker", "close:marker", "chdir:dir"]
 FAULT_KINDS = ["kill", "kill", "kill", "interrupt", "codegen-fail", "cc-fail", "cc-fail", "ld-fail",
                "marker-enospc", "lock-eacces", "kill-torn-link", "kill-torn-obj", "stall",
@@ -92,6 +92,56 @@ def make_goldens(memo_dir):
     return golden, solo
 
 
+def names_in_fresh_interpreter(hashseed, names):
+    """Module and object names the real compile_forms/compile_expressions derive for the tiny
+    requests in a *fresh interpreter* with the given PYTHONHASHSEED (histsim's child with the C
+    compiler stubbed).  The simulated processes of a run are forks of one zygote and so share
+    its hash seed; real concurrent processes (MPI ranks) do not."""
+    import subprocess
+
+    child = os.path.join(os.path.dirname(os.path.dirname(os.path.abspath(__file__))), "histsim", "child.py")
+    ops = []
+    for i, n in enumerate(names):
+        ops.append(["build", f"s{i}", n, []])
+        ops.append(["jitname", f"s{i}", P.JIT_KW])
+    scn = {"ops": ops, "want_text": False, "scratch": core.scratch_root()}
+    env = core.child_env({"PYTHONHASHSEED": str(hashseed)})
+    r = subprocess.run([sys.executable, child], input=json.dumps(scn).encode(), stdout=subprocess.PIPE,
+                       stderr=subprocess.PIPE, env=env, timeout=600)
+    if r.returncode != 0:
+        raise core.HarnessError(f"name probe under hash seed {hashseed} failed: "
+                                + r.stderr.decode(errors="replace")[-800:])
+    res = json.loads(r.stdout)
+    return {o["D"]: [o.get("module_name"), o.get("object_names")] for o in res["obs"]}
+
+
+def name_agreement(golden, hashseeds):
+    """-> list of (key, detail, payload) violations: every process, whatever its hash seed, must
+    derive the module name the zygote derived - otherwise concurrent requests for the same forms
+    never meet on one lock and each compiles its own copy ('exactly one of them compiles')."""
+    out = []
+    seen = {}
+    for hs in hashseeds:
+        seen[hs] = names_in_fresh_interpreter(hs, P.TINY)
+    for n in P.TINY:
+        ref = golden[n]["module"]
+        objs = {hs: tuple(seen[hs][n][1] or ()) for hs in hashseeds}
+        for hs in hashseeds:
+            if seen[hs][n][0] != ref:
+                out.append(("H-ONE/name-agreement",
+                            f"request {n}: a fresh interpreter with PYTHONHASHSEED={hs} derives module name "
+                            f"{seen[hs][n][0]}, the simulated processes derive {ref}: requests for the same "
+                            f"forms would not share a lock or a cached module",
+                            {"kind": "names", "hashseeds": [hs], "req": n}))
+                break
+        else:
+            if len(set(objs.values())) > 1:
+                out.append(("H-ONE/name-agreement",
+                            f"request {n}: object names differ between hash seeds: {objs}",
+                            {"kind": "names", "hashseeds": list(hashseeds), "req": n}))
+    return out
+
+
 # --------------------------------------------------------------------------------------
 # scenario generation
 
@@ -117,8 +167,16 @@ def gen_scenario(seed, mode, thorough, golden):
     for j in range(rng.choice([0, 1, 2] if mode == "C14" else [1, 1, 2])):
         scn["late"].append({"name": f"late{j}", "req": rng.choice(mods), "timeout": rng.choice([1, 2, 3])})
     if mode == "C14":
-        if rng.random() < 0.3:
+        c = rng.random()
+        if c < 0.3:
             scn["pre"].append({"kind": "warm", "req": rng.choice(mods)})
+        elif c < 0.45:
+            # history, not a fault of this run: an earlier build of the module failed, released
+            # its lock and left <module>.c.failed (and possibly partial outputs) behind
+            pre = {"kind": "stale-failed", "req": rng.choice(mods), "frac": round(rng.uniform(0.05, 0.95), 2)}
+            if rng.random() < 0.5:
+                pre["leftovers"] = True
+            scn["pre"].append(pre)
         if rng.random() < 0.15:
             scn["faults"].append({"kind": "stall", "proc": "holder", "at": rng.randrange(0, 25),
                                   "dur": round(rng.uniform(5, 60), 2)})
@@ -333,6 +391,15 @@ def replay(path):
     prop = rp["property"]
     memo = core.scratch_dir("jitmemo-")
     golden, _ = make_goldens(memo)
+    if rp["scenario"].get("kind") == "names":
+        v = name_agreement(golden, rp["scenario"]["hashseeds"])
+        hit = [x for x in v if x[0] == rp["invariant"]]
+        print(f"replay {path}: invariant {rp['invariant']} " + ("REPRODUCED" if hit else "not reproduced"))
+        for x in hit[:1]:
+            print("  " + x[1])
+        if hit:
+            print(f"VIOLATION property={prop} replay={path}")
+        return 1 if hit else 0
     res = P.run_scenario(rp["scenario"], golden, memo)
     hit = [v for v in res["violations"] if v[0] == rp["invariant"]]
     same = res["digest"] == rp.get("digest")
@@ -415,6 +482,22 @@ def run_check(prop, tier, base, replay_path=None):
         verd.add_harness(str(e))
         mins = []
     n = 0
+    name_hashseeds = []
+    if prop == "C14":
+        hrng = core.rng_for(core.run_seed(base, 0), "name-agreement")
+        name_hashseeds = [hrng.randrange(1, 2**32 - 1) for _ in range(4 if thorough else 2)] + [1]
+        try:
+            for key, detail, scn_n in name_agreement(golden, name_hashseeds):
+                if verd.is_known(key):
+                    verd.add(key, None, "")
+                    continue
+                path = core.write_replay(prop, base, 900 + n, {
+                    "engine": "jitsim", "property": prop, "invariant": key, "scenario": scn_n,
+                    "detail": detail})
+                n += 1
+                verd.add(key, path, detail)
+        except core.HarnessError as e:
+            verd.add_harness(str(e))
     for (scn, key, _, _), (small, res) in zip(todo, mins):
         hit = [v for v in res["violations"] if v[0] == key]
         payload = {"engine": "jitsim", "property": prop, "invariant": key, "scenario": small,
@@ -485,6 +568,7 @@ def run_check(prop, tier, base, replay_path=None):
         "determinism_selftest": {"runs": ndet, "digest_mismatches": nondet,
                                  "second_pass_workers": max(1, core.n_workers() // 2)},
         "golden_builder_seams": {k: v["seams"] for k, v in golden.items()},
+        "name_agreement_hashseeds": name_hashseeds,
         "components": {
             "real": ["ffcx.codegeneration.jit (all of it)", "ffcx code generation", "cffi recompile",
                      "setuptools build_ext", "gcc and ld (first build of each distinct source; memoised "
